@@ -27,12 +27,14 @@ pub enum Case {
 const OPS: [Op; 9] = [
     Op::Add, Op::Sub, Op::Mul, Op::Div, Op::And, Op::Or, Op::Xor, Op::Implies, Op::Iff,
 ];
-const NAMES: [&str; 36] = [
+const NAMES: [&str; 44] = [
     "a", "b", "c", "d", "e", "x", "y", "notx", "andy", "orb", "minx", "inx", "xorq", "iffy",
     "impliesz", "asx",
     // a keyword followed by digits, or by a letter of the other case, is an identifier too
     "not1", "or2", "and3", "xor4", "iff5", "implies6", "min7", "max8", "in9", "for2", "as3", "let4", "truex", "falsey", "true1", "false0",
     "notA", "orB", "solve1", "where2",
+    // a keyword followed by an underscore part is an (indexed) identifier as well
+    "or_1", "in_k", "min_q", "not_p", "as_2", "true_t", "for_3", "and_g",
 ];
 
 impl Case {
